@@ -9,6 +9,10 @@
 // reference dispatch function of (registry, flags, message) predicts, for every delivered copy, the
 // exact sequence of handler invocations (with values) and the settlement; every execution is
 // compared with it.
+//
+// Malformed payloads are drawn from structured corruption families (malformed.go); the context of every
+// delivered copy is one of five kinds (subDef.incomingCtx), four of which already carry foreign values
+// such as another message's "original message".
 package c15
 
 import (
@@ -39,6 +43,15 @@ func init() {
 			"The registry is a random subset of the type family (6 JSON structs, 8 google well-known types, 7 gogo types; duplicates allowed for events and inside groups). " +
 			"The stream mixes typed messages (sent through the real bus or built with the reference codec), messages with names nobody handles, malformed payloads under a " +
 			"handled name and foreign messages without name metadata; every handler has a scripted number of failures per message; a Nacked copy is redelivered at most R times. " +
+			"Malformed payloads come from corruption families of the reference encoding: legacy (fixed garbage), trailing-data (a complete document followed by a second document / " +
+			"garbage / a closing brace / NUL / BOM), truncated at a random byte, leading-junk (BOM, NUL, RS ...), trailing-comma, wrong-type (well-formed, member or top-level value of " +
+			"another JSON type), control-byte inserted, syntax (single quotes, bare keys, comments, NaN, bad escapes ...), out-of-range numbers / bad base64, and legal-odd (duplicated keys, " +
+			"surrounding white space, unknown members, case-folded keys: legal, must be handled); protobuf: legacy + a complete message followed by a broken tag / wire type 7 / end-group / " +
+			"overlong varint / field 0, and concatenated messages (legal merge). Every candidate of a rejecting JSON family is kept only if encoding/json.Unmarshal itself refuses it for the target type. " +
+			"Every delivered copy arrives with one of five incoming contexts: plain subscription context; foreign-value (harness key + look-alike string key \"original_message\"); " +
+			"foreign-original (cqrs.CtxWithOriginalMessage of ANOTHER message: a different message of the case, another copy with the same UUID, or the previously delivered copy); " +
+			"handler-ctx (the very context the previous handler invocation on that subscription received, i.e. publish-from-handler over a context-preserving transport); " +
+			"bus-ctx (the context of the message as the real bus published it when Send/Publish was called with a context holding an outer message's original message). " +
 			"The oracle is a reference dispatch function of (registry, flags, message, failure script) that fixes per delivered copy the ordered handler invocations, their values " +
 			"(independent decode with encoding/json / protobuf) and Ack vs Nack. A case is non-trivial when it saw at least one handler invocation, one delivery whose name matched " +
 			"no handler and one Nack; distinct = distinct (configuration, registry shape, per-delivery outcome) hashes.",
@@ -48,6 +61,8 @@ func init() {
 			"ProtobufMarshaler with DisableStdProtoFallback is only used with gogo types (it cannot decode google.golang.org/protobuf types by design)",
 			"malformed is decided by the reference codec: decode error => expect Nack and no invocation; decodable garbage => expect an invocation with the decoded value",
 			"never-settled / never-returning is decided by the quiescence detector, not by a time-out",
+			"\"the handler's context exposes the original message\" = cqrs.OriginalMessageFromCtx(ctx) is the *message.Message being handled (pointer identity), whatever values the incoming message's context already carried; nothing is demanded about the other values of the context",
+			"the family label of a malformed payload is bookkeeping only (counters malformed_<family> / decodable_<family>); the expected outcome always comes from the reference decode of the delivered bytes",
 		},
 		Run: run,
 	})
@@ -145,8 +160,10 @@ type smsg struct {
 	HasName bool
 	ViaBus  bool
 	ByValue bool
+	Bad     string // family of the corruption (malformed only)
 	sent    any
 	orig    *message.Message
+	busCtx  context.Context // context of the message as the real bus published it (only when sent with a value-carrying context)
 }
 
 type hdef struct {
@@ -168,6 +185,7 @@ type inv struct {
 
 type copyObs struct {
 	Settle string
+	Ctx    string // what the context of the delivered copy carried (see incomingCtx)
 	Invs   []inv
 }
 
@@ -184,8 +202,12 @@ type subDef struct {
 	D    []*deliv
 	vsub *vlib.Sub
 
+	r    *vlib.Rand         // the driver goroutine's own PRNG
+	pool []*message.Message // messages of the case: candidates for a foreign "original message" (never delivered themselves)
+
 	mu          sync.Mutex
 	cur         *message.Message
+	lastCtx     context.Context // the context the most recent handler invocation of this subscription received
 	curInvs     []inv
 	calls       map[string]int
 	unsolicited []inv
@@ -212,52 +234,11 @@ func (cs *caseState) newUUID() string {
 	return fmt.Sprintf("%s-b%d", cs.e.ID(), cs.uuidN.Add(1))
 }
 
-func badPayload(r *vlib.Rand, codec string, good []byte) []byte {
+func badPayload(r *vlib.Rand, codec string, good []byte, t *tdef) (string, []byte) {
 	if codec == "json" {
-		switch r.Intn(10) {
-		case 0:
-			return []byte("{")
-		case 1:
-			return nil
-		case 2:
-			return []byte("nil")
-		case 3:
-			return []byte("[]")
-		case 4:
-			return []byte(`"str"`)
-		case 5:
-			return []byte(`{"ID":5,"Flag":"x","Inner":3,"X":"y","V":-1,"N":"n"}`)
-		case 6:
-			return good[:len(good)/2]
-		case 7:
-			return []byte("null") // decodable: zero value
-		case 8:
-			return []byte(`{"unknown":1}`) // decodable
-		}
-		return r.Bytes(r.Range(1, 6))
+		return badJSON(r, good, t)
 	}
-	switch r.Intn(9) {
-	case 0:
-		return []byte{0x08} // field 1, varint, value missing
-	case 1:
-		return []byte{0x0a, 0x05, 'a'} // length 5, one byte
-	case 2:
-		return []byte{0xff}
-	case 3:
-		return []byte{0x80, 0x80}
-	case 4:
-		if len(good) > 0 {
-			return good[:len(good)-1]
-		}
-		return []byte{0x12}
-	case 5:
-		return []byte{0x0a, 0x01, 0xff} // invalid UTF-8 in a string field (codec-dependent)
-	case 6:
-		return []byte{0x10, 0x01, 0x08} // unknown field then truncated tag
-	case 7:
-		return []byte{0x98, 0x06, 0x01} // unknown field 99: decodable
-	}
-	return r.Bytes(r.Range(1, 6))
+	return badProto(r, good)
 }
 
 func mutateName(r *vlib.Rand, n string) string {
@@ -526,17 +507,24 @@ func (cs *caseState) busPhase(res *vlib.Result) {
 			} else {
 				cs.topicTag.Store(nil)
 			}
+			// half of the sends happen "inside a handler": with the context of an outer message being handled
+			sendCtx, nested := context.Background(), cs.e.R.Bool()
+			if nested {
+				outer := message.NewMessage(fmt.Sprintf("%s-outer%d", e.ID(), m.No), []byte(`{"outer":true}`))
+				outer.Metadata.Set("name", "outer."+m.Stream)
+				sendCtx = cqrs.CtxWithOriginalMessage(context.WithValue(sendCtx, harnessKey{}, "outer"), outer)
+			}
 			if m.Stream == "cmd" {
 				if cs.e.R.Chance(0.3) {
-					serr = cbus.SendWithModifiedMessage(context.Background(), v, func(mm *message.Message) error {
+					serr = cbus.SendWithModifiedMessage(sendCtx, v, func(mm *message.Message) error {
 						mm.Metadata.Set("x-mod", "1")
 						return nil
 					})
 				} else {
-					serr = cbus.Send(context.Background(), v)
+					serr = cbus.Send(sendCtx, v)
 				}
 			} else {
-				serr = ebus.Publish(context.Background(), v)
+				serr = ebus.Publish(sendCtx, v)
 			}
 			calls := pub.Calls()[before:]
 			res.Events++
@@ -573,6 +561,10 @@ func (cs *caseState) busPhase(res *vlib.Result) {
 			for k, v := range snap.Metadata {
 				m.orig.Metadata.Set(k, v)
 			}
+			if nested && len(pc.Msgs) == 1 && pc.Msgs[0] != nil {
+				// what a context-preserving transport would hand to the consumer
+				m.busCtx = pc.Msgs[0].Context()
+			}
 		default:
 			good, eerr := encode(m.sent)
 			if eerr != nil {
@@ -582,7 +574,7 @@ func (cs *caseState) busPhase(res *vlib.Result) {
 			payload := good
 			switch m.Kind {
 			case "malformed":
-				payload = badPayload(e.R, t.codec, good)
+				m.Bad, payload = badPayload(e.R, t.codec, good, t)
 			case "foreign":
 				if e.R.Bool() {
 					payload = e.R.Payload(12)
@@ -608,6 +600,7 @@ func (cs *caseState) handlerFn(h *hdef) hfn {
 		s.mu.Lock()
 		defer s.mu.Unlock()
 		in := inv{H: h.Idx, V: v}
+		s.lastCtx = ctx
 		om := cqrs.OriginalMessageFromCtx(ctx)
 		in.OrigNil = om == nil
 		in.OrigOK = om != nil && om == s.cur
@@ -812,11 +805,70 @@ func (cs *caseState) build(router *message.Router) error {
 	return nil
 }
 
+// harnessKey is a context key of the harness' own ("foreign values" in an incoming message's context).
+type harnessKey struct{}
+
+// incomingCtx decides what the context of the next delivered copy carries. A consumed message's context is
+// whatever the transport hands over: in-process / synchronous Pub/Subs and context-preserving transports pass the
+// context of the PUBLISHED message along, and the documented idiom is to publish from a handler with the context the
+// handler received (bus.Send(ctx, ...) / bus.Publish(ctx, ...) do msg.SetContext(ctx)) - so an incoming context may
+// already hold values, including the "original message" of the message whose handler caused this one.
+//
+//	plain            the subscription's context
+//	foreign-value    + values under the harness' own key and under the plain string key "original_message"
+//	foreign-original + cqrs.CtxWithOriginalMessage(ctx, X), X another message of the case, another copy of the same
+//	                 message (same UUID) or the previously delivered copy
+//	handler-ctx      the very context the last handler invocation of this subscription received (built by the real
+//	                 processor: original message = an earlier copy, plus the Router's handler values)
+//	bus-ctx          the context of the message as the real bus published it when called with a context that
+//	                 carries the original message of an outer message
+//
+// Whatever came in, the handler's context must expose the message being handled.
+func (s *subDef) incomingCtx(base context.Context, d *deliv, prev *message.Message) (string, context.Context) {
+	r := s.r
+	foreign := func() *message.Message {
+		switch x := r.Intn(4); {
+		case x == 0 && prev != nil:
+			return prev
+		case x == 1:
+			return d.M.orig.Copy()
+		}
+		return s.pool[r.Intn(len(s.pool))]
+	}
+	x := r.Intn(100)
+	switch {
+	case x < 30:
+		return "plain", base
+	case x < 45:
+		ctx := context.WithValue(base, harnessKey{}, "incoming")
+		return "foreign-value", context.WithValue(ctx, "original_message", foreign()) //nolint: a look-alike key on purpose
+	case x < 60:
+		s.mu.Lock()
+		lc := s.lastCtx
+		s.mu.Unlock()
+		if lc != nil {
+			return "handler-ctx", lc
+		}
+	case x < 72:
+		if d.M.busCtx != nil {
+			return "bus-ctx", d.M.busCtx
+		}
+	}
+	ctx := cqrs.CtxWithOriginalMessage(context.WithValue(base, harnessKey{}, "incoming"), foreign())
+	if r.Bool() {
+		ctx = context.WithValue(ctx, harnessKey{}, "outer") // the original message is not the outermost value
+	}
+	return "foreign-original", ctx
+}
+
 func (s *subDef) drive(sp *vlib.Subscription) {
+	var prev *message.Message
 	for _, d := range s.D {
 		for n := 0; ; n++ {
 			cp := d.M.orig.Copy()
-			cp.SetContext(sp.Ctx)
+			mode, ctx := s.incomingCtx(sp.Ctx, d, prev)
+			cp.SetContext(ctx)
+			prev = cp
 			s.mu.Lock()
 			s.cur, s.curInvs = cp, nil
 			s.mu.Unlock()
@@ -835,7 +887,7 @@ func (s *subDef) drive(sp *vlib.Subscription) {
 			case <-sp.Ended():
 			}
 			s.mu.Lock()
-			d.Obs = append(d.Obs, copyObs{Settle: st, Invs: s.curInvs})
+			d.Obs = append(d.Obs, copyObs{Settle: st, Ctx: mode, Invs: s.curInvs})
 			s.cur, s.curInvs = nil, nil
 			if st == "" {
 				s.aborted = true
@@ -959,6 +1011,7 @@ type outcome struct {
 	Msg   int    `json:"msg"`
 	Kind  string `json:"kind"`
 	Trace string `json:"trace"`
+	Ctx   string `json:"ctx"`
 }
 
 // judge compares everything observed on s with the reference. It returns the outcome trace.
@@ -968,7 +1021,7 @@ func (cs *caseState) judge(s *subDef, res *vlib.Result, st *stats) []outcome {
 	var out []outcome
 	calls := map[string]int{}
 	for _, d := range s.D {
-		var trace []string
+		var trace, ctxs []string
 		for n := 0; ; n++ {
 			x := cs.ref(s, d.M, calls)
 			if n >= len(d.Obs) {
@@ -978,7 +1031,7 @@ func (cs *caseState) judge(s *subDef, res *vlib.Result, st *stats) []outcome {
 				return out
 			}
 			o := d.Obs[n]
-			where := fmt.Sprintf("%s, copy %d", cs.describe(s, d), n)
+			where := fmt.Sprintf("%s, copy %d (incoming context: %s)", cs.describe(s, d), n, o.Ctx)
 			res.Events += 1 + len(o.Invs)
 			st.copies++
 			st.invocations += len(o.Invs)
@@ -1043,6 +1096,11 @@ func (cs *caseState) judge(s *subDef, res *vlib.Result, st *stats) []outcome {
 				}
 			case "malformed":
 				st.malformed++
+				if d.M.Bad != "" {
+					st.by["malformed_"+d.M.Bad]++
+				} else {
+					st.by["malformed_other_"+d.M.Kind]++
+				}
 			case "handler-error":
 				st.handlerErr++
 				if len(x.invs) < cs.matching(s, d.M) {
@@ -1056,6 +1114,9 @@ func (cs *caseState) judge(s *subDef, res *vlib.Result, st *stats) []outcome {
 				if d.M.Kind == "malformed" || d.M.Kind == "randname" {
 					st.garbageOK++
 				}
+				if d.M.Kind == "malformed" {
+					st.by["decodable_"+d.M.Bad]++
+				}
 			}
 			if o.Settle == "ack" {
 				st.acks++
@@ -1065,6 +1126,9 @@ func (cs *caseState) judge(s *subDef, res *vlib.Result, st *stats) []outcome {
 			if n > 0 {
 				st.redeliveries++
 			}
+			st.by["copies_ctx_"+o.Ctx]++
+			st.by["invocations_ctx_"+o.Ctx] += len(o.Invs)
+			ctxs = append(ctxs, o.Ctx)
 			trace = append(trace, fmt.Sprintf("%v%s", obsSeq, o.Settle))
 			if x.settle == "ack" || n >= d.R {
 				if len(d.Obs) != n+1 {
@@ -1073,7 +1137,7 @@ func (cs *caseState) judge(s *subDef, res *vlib.Result, st *stats) []outcome {
 				break
 			}
 		}
-		out = append(out, outcome{Sub: s.Kind + strings.TrimPrefix(s.Key, cs.e.ID()), Msg: d.M.No, Kind: d.M.Kind, Trace: strings.Join(trace, " ")})
+		out = append(out, outcome{Sub: s.Kind + strings.TrimPrefix(s.Key, cs.e.ID()), Msg: d.M.No, Kind: d.M.Kind, Trace: strings.Join(trace, " "), Ctx: strings.Join(ctxs, " ")})
 	}
 	if len(s.unsolicited) > 0 {
 		in := s.unsolicited[0]
@@ -1093,6 +1157,8 @@ func (cs *caseState) matching(s *subDef, m *smsg) int {
 }
 
 type stats struct {
+	by map[string]int // per malformed family / per incoming-context kind
+
 	copies, invocations, unknown, foreign, malformed, handlerErr, groupStops, success, groupMulti, garbageOK, acks, nacks, redeliveries int
 }
 
@@ -1152,6 +1218,13 @@ func run(e *vlib.Env) vlib.Result {
 		return res
 	}
 
+	var pool []*message.Message
+	for _, m := range cs.msgs {
+		pool = append(pool, m.orig)
+	}
+	for _, s := range cs.subs {
+		s.r, s.pool = e.R.Fork(), pool
+	}
 	var wg sync.WaitGroup
 	for _, s := range cs.subs {
 		sps := s.vsub.Subs()
@@ -1167,7 +1240,7 @@ func run(e *vlib.Env) vlib.Result {
 	go func() { wg.Wait(); close(drivers) }()
 	oc, dump := vlib.WaitClosed(drivers, vlib.WD)
 
-	var st stats
+	st := stats{by: map[string]int{}}
 	var outs []outcome
 	for _, s := range cs.subs {
 		outs = append(outs, cs.judge(s, &res, &st)...)
@@ -1218,6 +1291,9 @@ func run(e *vlib.Env) vlib.Result {
 	res.Count("group_stopped_before_later_match", st.groupStops)
 	res.Count("group_multi_handler_success", st.groupMulti)
 	res.Count("decodable_garbage_invoked", st.garbageOK)
+	for k, n := range st.by {
+		res.Count(k, n)
+	}
 	res.Count("on_handle_calls", onHandle)
 	res.Count("handlers", len(cs.hs))
 	res.Count("cases_"+cs.c.MK, 1)
